@@ -7,7 +7,7 @@ from typing import Any, Dict, List, Optional, Set, Tuple
 
 from ..cfacts import CUnit
 from ..core import AnalysisError, Report
-from ..pyfacts import Repo, inlined_statements, calls, dotted, norm, raise_guards, raised_class, walk_no_nested
+from ..pyfacts import Repo, clone, inline_module_constants, inlined_statements, calls, dotted, norm, raise_guards, raised_class, walk_no_nested
 
 DM = 'flipjump/interpreter/io_devices/device_memory.py'
 SC = 'flipjump/interpreter/io_devices/ScreenIO.py'
@@ -41,6 +41,11 @@ def rule_adapters(rep: Report, repo: Repo) -> None:
     rd = repo.func(DM, 'DeviceMemory.read_data_byte')
     wd = repo.func(DM, 'DeviceMemory.write_data_byte')
     # named temporaries are substituted before the formulas are compared
+    def consts_in(fn: Any) -> Any:        # a lifted literal (_BYTE_MASK = 0xFF) reads like the literal
+        new_fn = clone(fn)
+        new_fn.body = [inline_module_constants(repo, DM, st) for st in new_fn.body]          # type: ignore[arg-type]
+        return new_fn
+    rd, wd = consts_in(rd), consts_in(wd)
     r_body = [b for b in inlined_statements(rd) if not b.startswith('self._require_byte_capable_width')]
     r_ok = r_body == ['return self.read_word(self._jump_word_address(op_bit_address)) >> self._data_bit_offset & 255']
     w_body = [b for b in inlined_statements(wd) if not b.startswith('self._require_byte_capable_width')]
@@ -70,7 +75,10 @@ def rule_attach(rep: Report, repo: Repo) -> None:
     ok = att == ['NativeDeviceMemory(core, mem.memory_width)'] and lines.get('core.add_segment', 0) < lines.get('io_device.attach_memory', 0) < lines.get('core.run', 0) \
         and lines.get('core.set_words', 0) < lines.get('io_device.attach_memory', 0)
     rep.check(ok, 'C19.ATTACH', '_run_native', f'{att} at line {lines.get("io_device.attach_memory")} (load before, run after)', f'{RUN}:{rn.lineno}')
-    same_core = any(norm(s) == 'core = _fjcore.Memory(mem.memory_width, flat_max_words=flat_max_words if flat_max_words else 0)' for s in rn.body)
+    # `core` is bound exactly once, to a _fjcore.Memory built for the reader's width; the adapter and the run use that name
+    core_defs = [s.value for s in ast.walk(rn) if isinstance(s, ast.Assign) and len(s.targets) == 1 and norm(s.targets[0]) == 'core']
+    same_core = (len(core_defs) == 1 and isinstance(core_defs[0], ast.Call) and dotted(core_defs[0].func) == '_fjcore.Memory'
+                 and bool(core_defs[0].args) and norm(core_defs[0].args[0]) == 'mem.memory_width')
     rep.check(same_core, 'C19.ATTACH', '_run_native:same-core', 'the adapter wraps the Memory object that runs', f'{RUN}:{rn.lineno}')
 
 
